@@ -361,6 +361,7 @@ func (s *Lexer) getNextToken() (*Token, error) {
 	)
 
 	current_state := SSTART
+	unendingRegexp := false
 	token := &Token{}
 	startPosInfo := s.get_position()
 	var buf bytes.Buffer
@@ -541,9 +542,16 @@ func (s *Lexer) getNextToken() (*Token, error) {
 				break
 			}
 			curr_ch := s.read()
-			for curr_ch != '/' {
+			for curr_ch != '/' && curr_ch != 0 {
 				buf.WriteRune(curr_ch)
 				curr_ch = s.read()
+			}
+
+			if curr_ch == 0 {
+				// ran out of input before the closing '/'
+				unendingRegexp = true
+				current_state = SERROR
+				break
 			}
 
 			current_state = SREGEXP
@@ -757,7 +765,9 @@ func (s *Lexer) getNextToken() (*Token, error) {
 	token.Line = ds.NewRange(startPosInfo.line, endPosInfo.line)
 	token.Lexeme = buf.String()
 
-	if token.TokenType == ERROR && unendingBlockComment {
+	if token.TokenType == ERROR && unendingRegexp {
+		return nil, NewLexError(token, "Unending regular expression")
+	} else if token.TokenType == ERROR && unendingBlockComment {
 		return nil, NewLexError(token, "Unending block comment")
 	} else if token.TokenType == ERROR && unendingString {
 		return nil, NewLexError(token, "Unending string")
